@@ -500,6 +500,15 @@ func pattern(seed uint64, tag byte) []byte {
 	return r.Bytes(dataLen)
 }
 
+// reply: what the server sends back for the bytes it read — as many bytes, every one changed
+func reply(b []byte) []byte {
+	out := make([]byte, len(b))
+	for i, x := range b {
+		out[i] = x ^ 0x5a
+	}
+	return out
+}
+
 func h8(b []byte) string {
 	s := sha256.Sum256(b)
 	return hex.EncodeToString(s[:4])
@@ -564,8 +573,9 @@ func parseLong(b []byte) lhdr {
 
 // rec collects the qlog events of one side (all connections of that side, in order).
 type rec struct {
-	mu  sync.Mutex
-	evs []taggedEvent
+	mu    sync.Mutex
+	evs   []taggedEvent
+	conns []string // tracer invocations, in order: one per connection (attempt)
 }
 
 // taggedEvent: a qlog event and the connection it belongs to (the ID the Tracer callback was given: the client's
@@ -588,6 +598,11 @@ func (c connRec) RecordEvent(ev qlogwriter.Event) {
 func (c connRec) Close() error                     { return nil }
 func (c connRec) AddProducer() qlogwriter.Recorder { return c }
 func (c connRec) SupportsSchemas(string) bool      { return true }
+func (r *rec) connsFrom(n int) []string {
+	r.mu.Lock()
+	defer r.mu.Unlock()
+	return append([]string(nil), r.conns[min(n, len(r.conns)):]...)
+}
 func (r *rec) snapshot() []taggedEvent {
 	r.mu.Lock()
 	defer r.mu.Unlock()
@@ -595,7 +610,11 @@ func (r *rec) snapshot() []taggedEvent {
 }
 func (r *rec) tracer() func(context.Context, bool, quic.ConnectionID) qlogwriter.Trace {
 	return func(_ context.Context, _ bool, id quic.ConnectionID) qlogwriter.Trace {
-		return connRec{r, hex.EncodeToString(id.Bytes())}
+		c := hex.EncodeToString(id.Bytes())
+		r.mu.Lock()
+		r.conns = append(r.conns, c)
+		r.mu.Unlock()
+		return connRec{r, c}
 	}
 }
 
@@ -662,9 +681,13 @@ func startScen(spec *quic.QUICSpec, plain bool, ccfg *quic.Config, faults []e2e.
 					return
 				}
 				st.SetDeadline(time.Now().Add(90 * time.Second))
-				b, _ := io.ReadAll(st)
-				s.srvData <- fmt.Sprintf("%d:%s", len(b), h8(b))
-				st.Write(pattern(s.seed, 's'))
+				b, rerr := io.ReadAll(st)
+				r := fmt.Sprintf("%d:%s", len(b), h8(b))
+				if rerr != nil {
+					r += ":" + canonErr(rerr)
+				}
+				s.srvData <- r
+				st.Write(reply(b))
 				st.Close()
 				// keep the connection until the client closes it (or the scenario ends)
 				<-c.Context().Done()
@@ -679,35 +702,56 @@ func (s *scen) close() {
 	s.wg.Wait()
 }
 
-// firstFlight: facts about the client's datagrams [from, …) up to the first server datagram sent after `s2cFrom`.
-func firstFlightFacts(env *e2e.Env, c2sFrom, s2cFrom int) string {
+// firstFlightFacts: facts about the client's Initial datagrams of ONE dial. `attempts` are the first destination
+// connection IDs of the dial's connection attempts (from the client's tracer; nil: unknown, take what is on the wire).
+// Datagrams of other connections (a closed connection of an earlier dial answering a late packet) are not counted.
+func firstFlightFacts(env *e2e.Env, c2sFrom, s2cFrom int, attempts []string) string {
 	c2s := env.Net.Datagrams(e2e.ToServer)
 	s2c := env.Net.Datagrams(e2e.ToClient)
 	var firstReply time.Duration = -1
 	if len(s2c) > s2cFrom {
 		firstReply = s2c[s2cFrom].At
 	}
-	dcidlen, toklen := -1, -1
+	mine := c2s[min(c2sFrom, len(c2s)):]
 	var hscids []string
+	dcidlen, toklen := -1, -1
+	if attempts != nil {
+		for _, a := range attempts {
+			for _, d := range mine {
+				if h := parseLong(d.Data); h.ok && h.initial && hex.EncodeToString(h.dcid) == a {
+					if x := "x" + hex.EncodeToString(h.scid); !slices.Contains(hscids, x) {
+						hscids = append(hscids, x)
+					}
+					if dcidlen < 0 {
+						dcidlen, toklen = len(h.dcid), h.toklen
+					}
+					break
+				}
+			}
+		}
+	}
 	var ff []string
 	minsz := -1
 	ninit := 0
-	for _, d := range c2s[min(c2sFrom, len(c2s)):] {
+	for _, d := range mine {
 		h := parseLong(d.Data)
 		if !h.ok || !h.initial {
 			continue
 		}
+		x := "x" + hex.EncodeToString(h.scid)
+		if attempts == nil {
+			if !slices.Contains(hscids, x) {
+				hscids = append(hscids, x)
+			}
+			if dcidlen < 0 {
+				dcidlen, toklen = len(h.dcid), h.toklen
+			}
+		} else if !slices.Contains(hscids, x) {
+			continue // not a connection of this dial
+		}
 		ninit++
 		if minsz < 0 || len(d.Data) < minsz {
 			minsz = len(d.Data)
-		}
-		x := "x" + hex.EncodeToString(h.scid)
-		if len(hscids) == 0 {
-			dcidlen = len(h.dcid)
-			toklen = h.toklen
-		}
-		if !slices.Contains(hscids, x) {
-			hscids = append(hscids, x) // one per connection attempt of this dial (a Version Negotiation starts a new one)
 		}
 		if firstReply < 0 || d.At < firstReply {
 			ff = append(ff, strconv.Itoa(len(d.Data)))
@@ -766,6 +810,7 @@ func (s *scen) oneDial(i int) string {
 	env := s.env
 	c2sFrom, s2cFrom := len(env.Net.Datagrams(e2e.ToServer)), len(env.Net.Datagrams(e2e.ToClient))
 	srvFrom, cliFrom := len(s.slog.snapshot()), len(s.clog.snapshot())
+	cliConns := len(s.clog.connsFrom(0))
 	ctx, cancel := context.WithTimeout(context.Background(), 60*time.Second)
 	defer cancel()
 	conn, err := env.Dial(ctx)
@@ -774,12 +819,24 @@ func (s *scen) oneDial(i int) string {
 	if err == nil {
 		cs := conn.ConnectionState()
 		extra = fmt.Sprintf(" v=%d alpn=%s", versionNo(cs.Version), cs.TLS.NegotiatedProtocol)
-		up, down := s.moveData(conn)
+		up, down := s.moveData(conn, i)
 		extra += " up=" + up + " down=" + down
 		conn.CloseWithError(0, "")
 		time.Sleep(300 * time.Millisecond) // let the close reach the server before the next dial
 	}
-	return fmt.Sprintf("D[ i=%d %s %s out=%s%s ]", i, firstFlightFacts(env, c2sFrom, s2cFrom), s.paramFacts(srvFrom, cliFrom, dialDCIDs(env, c2sFrom)), out, extra)
+	var attempts []string
+	dcids := dialDCIDs(env, c2sFrom)
+	if env.ClientCfg != nil { // the client has a tracer: it names the connection attempts of this dial exactly
+		attempts = s.clog.connsFrom(cliConns)
+		dcids = map[string]bool{}
+		for _, a := range attempts {
+			dcids[a] = true
+		}
+		if attempts == nil {
+			attempts = []string{}
+		}
+	}
+	return fmt.Sprintf("D[ i=%d %s %s out=%s%s ]", i, firstFlightFacts(env, c2sFrom, s2cFrom, attempts), s.paramFacts(srvFrom, cliFrom, dcids), out, extra)
 }
 
 func versionNo(v quic.Version) int {
@@ -792,11 +849,12 @@ func versionNo(v quic.Version) int {
 	return 0
 }
 
-func (s *scen) moveData(conn *quic.Conn) (up, down string) {
+func (s *scen) moveData(conn *quic.Conn, i int) (up, down string) {
 	ctx, cancel := context.WithTimeout(context.Background(), 60*time.Second)
 	defer cancel()
-	sent := pattern(s.seed, 'c')
-	up, down = fmt.Sprintf("0:%s:-", h8(sent)), fmt.Sprintf("0:%s:-", h8(pattern(s.seed, 's')))
+	sent := pattern(s.seed+uint64(i)*7919, 'c') // different bytes for every dial of the scenario
+	want := reply(sent)
+	up, down = fmt.Sprintf("0:%s:-", h8(sent)), fmt.Sprintf("0:%s:-", h8(want))
 	st, err := conn.OpenStreamSync(ctx)
 	if err != nil {
 		return "E:open", down
@@ -807,17 +865,22 @@ func (s *scen) moveData(conn *quic.Conn) (up, down string) {
 	}
 	st.Close()
 	b, rerr := io.ReadAll(st)
-	down = fmt.Sprintf("%d:%s:%s", len(b), h8(pattern(s.seed, 's')), h8(b))
+	down = fmt.Sprintf("%d:%s:%s", len(b), h8(want), h8(b))
 	if rerr != nil {
 		down += ":" + canonErr(rerr)
 	}
-	select {
-	case got := <-s.srvData:
-		l, hh, _ := strings.Cut(got, ":")
-		up = fmt.Sprintf("%s:%s:%s", l, h8(sent), hh)
-	case <-ctx.Done():
+	for {
+		select {
+		case got := <-s.srvData:
+			l, hh, _ := strings.Cut(got, ":")
+			if !strings.HasPrefix(hh, h8(sent)) && len(s.srvData) > 0 {
+				continue // the report of an earlier, failed dial of this scenario
+			}
+			up = fmt.Sprintf("%s:%s:%s", l, h8(sent), hh) // hh may carry ":<error the server's read ended with>"
+		case <-ctx.Done():
+		}
+		return up, down
 	}
-	return up, down
 }
 
 // ---------------------------------------------------------------- ops
